@@ -322,7 +322,8 @@ PROPS = {
                  "an error; never a panic, never a stored value of another type; ffi: the C entry points on the same "
                  "documents. distinct_nontrivial = distinct contexts / documents."),
         "quick": [st("rel")],
-        "thorough": [st("rel"), st("dbg"), st("asan")],
+        "thorough": [st("rel"), st("dbg"), st("asan"),
+                     st("miri", only="round-trip", jobs=1, shards=16, name="round-trip", timeout=5400)],
         "floors": {"quick": {"evaluations": 30000, "distinct_nontrivial": 8000, "round_trips_ok": 5000,
                              "mutants_accepted": 3000, "mutants_rejected": 10000, "ffi_ok": 500}},
         "on_death": "sanitizer",
@@ -367,7 +368,8 @@ PROPS = {
         "quick": [st("rel")],
         "thorough": [st("rel"), st("dbg"), st("asan", env={"ASAN_OPTIONS": "halt_on_error=1:abort_on_error=1:detect_leaks=1"}),
                      st("miri", only="panics", jobs=1, shards=8, name="panics", timeout=5400), st("miri", only="setters", jobs=1, shards=8, name="setters", timeout=5400),
-                     st("miri", only="differential", jobs=1, shards=8, name="differential", timeout=5400)],
+                     st("miri", only="differential", jobs=1, shards=8, name="differential", timeout=5400),
+                     st("miri", only="error-sequences", jobs=1, shards=8, name="error-sequences", timeout=5400)],
         "floors": {"quick": {"evaluations": 150000, "distinct_nontrivial": 3000, "matches_compared": 2500,
                              "parse_errors_compared": 500, "setter_failures": 8000, "setter_successes": 800,
                              "panics_reported_as_status": 150}},
